@@ -96,7 +96,7 @@ def may_be_complex(t: T, rng, n=12):
         for nm in names:
             base = nm.split("[")[0]
             if base in ("arg", "argv", "x", "h"):
-                env[nm] = complex(rng.uniform(0.3, 1.7), 0)
+                env[nm] = complex(rng.uniform(0.3, 1.7) * rng.choice((1, -1)), 0)
             else:
                 env[nm] = complex(rng.uniform(0.3, 1.7), rng.uniform(0.3, 1.2))
         try:
